@@ -1392,7 +1392,7 @@ def expandTableFile(Eups, ofd, ifd, productList, versionRegexp=None, force=False
 
                 products.append((cmd,
                                  mat.group(1) == "setupOptional",
-                                 "--external" in line))
+                                 "--external" in line, line))
         else:
             if block[0]:
                 block = [False, []]
@@ -1408,7 +1408,7 @@ def expandTableFile(Eups, ofd, ifd, productList, versionRegexp=None, force=False
     desiredProducts = []
     optionalProducts = {}
     notFound = {}
-    for productName, optional, isExternal in products:
+    for productName, optional, isExternal, line in products:
         if productName == toplevelName:
             continue                    # Don't include product foo in foo.table
         if isExternal:                  # ignore products labelled --external
